@@ -47,7 +47,7 @@ type pStmt struct {
 }
 
 // ---- SQL ------------------------------------------------------------------------------------------
-func sqlLit(v value.Primary) string {
+func c15SqlLit(v value.Primary) string {
 	switch x := v.(type) {
 	case *value.Integer:
 		if x.Raw() < 0 {
@@ -70,7 +70,7 @@ func sqlLit(v value.Primary) string {
 func (e *pExpr) sql() string {
 	switch e.K {
 	case "lit":
-		return sqlLit(e.V)
+		return c15SqlLit(e.V)
 	case "var":
 		return "@" + e.X
 	case "assign":
@@ -105,7 +105,7 @@ func (e *pExpr) sql() string {
 func sqlRows(rows []value.Primary) string {
 	ps := make([]string, len(rows))
 	for i, r := range rows {
-		ps[i] = "SELECT " + sqlLit(r)
+		ps[i] = "SELECT " + c15SqlLit(r)
 	}
 	return strings.Join(ps, " UNION ALL ")
 }
